@@ -143,8 +143,8 @@ def charsource_part(chk, vdir, tier, seed, rnd):
             continue
         e = byid[vid]
         shape = "".join(o["k"] for o in e["ops"])
-        chk.report("chars:%s" % shape, "tokens_get_char delivered %s, the stream is %s for file %s ops %s" % (
-            e["got"], v["expect"], e["file"], json.dumps(e["ops"])), dict(script=dict(file=e["file"], ops=e["ops"]), got=e["got"], expect=v["expect"]))
+        chk.report("chars:delivered characters are not the stream", "(%s) tokens_get_char delivered %s, the stream is %s for file %s ops %s" % (
+            shape, e["got"], v["expect"], e["file"], json.dumps(e["ops"])), dict(script=dict(file=e["file"], ops=e["ops"]), got=e["got"], expect=v["expect"]))
     return len(events) - len(canaries)
 
 
